@@ -133,6 +133,17 @@ def main(chk: lib.Check) -> int:
     nrand = 6000 if thorough else 800
     recs += lib.pmap(observe_random, [(chk.seed, k, 15, "solved" if k % 5 == 0 else "direct") for k in range(nrand)], chunksize=8)
     recs += lib.pmap(observe_random, [(chk.seed, 100000 + k, -1, "solved" if k % 4 == 0 else "direct") for k in range(140 if thorough else 28)], chunksize=2)
+    # ---- (C) the repository's own tests as a driver: every find_shortest_path call they make (in-grid cells, lattice graphs)
+    try:
+        from harness import repo_tests
+
+        _g, sp, summ = repo_tests.observe_dirs(thorough)
+        for x in sp:
+            x.update(kind="repo_tests", via="tests")
+        recs = sp + recs
+        chk.notes["repo_tests"] = dict(dirs=summ, solver_calls=len(sp))
+    except Exception as e:  # noqa: BLE001 - an extra driver, never a reason to fail the check
+        chk.notes["repo_tests"] = dict(error=repr(e)[:200])
     for i, x in enumerate(recs):
         x["id"] = i
     res = lib.oracle("Trace_SP", recs, tag="sp")
